@@ -340,3 +340,105 @@ Lemma error_body_whole : forall e, error_sent_body e = e_body e.
 Proof.
   intros e. unfold error_sent_body, error_content_length. rewrite Nat2Z.id. apply firstn_all.
 Qed.
+
+(* ---------------------------------------------------------------- (4b) HTTPError at every point *)
+
+Definition quiet_state (s : rstate) : Prop :=
+  rs_headed s = false /\ rs_ended s = false /\ rs_broken s = false /\ rs_sent s = [].
+
+Lemma idle_keeps_quiet : forall e s, idle_ev e = true -> quiet_state s -> quiet_state (serve_ev s e).
+Proof.
+  intros e s He [Hh [He' [Hb Hs]]]. unfold serve_ev. rewrite He', Hb. cbn [orb].
+  destruct e as [st cl|b|est eb]; cbn in He.
+  - repeat split; cbn; assumption.
+  - destruct b; [|discriminate]. repeat split; assumption.
+  - discriminate.
+Qed.
+
+Lemma idle_fold_quiet : forall evs s, forallb idle_ev evs = true -> quiet_state s ->
+  quiet_state (fold_left serve_ev evs s).
+Proof.
+  induction evs as [|e evs IH]; intros s H Hq; [exact Hq|].
+  cbn in H. apply andb_true_iff in H. destruct H as [He Hr].
+  cbn [fold_left]. apply IH; [exact Hr|]. apply idle_keeps_quiet; assumption.
+Qed.
+
+Lemma error_before_head_lemma : forall evs est eb, forallb idle_ev evs = true ->
+  client_view (serve_app (evs ++ [EvRaise est eb])) = (est, Some (Z.of_nat (length eb)), eb, true).
+Proof.
+  intros evs est eb H. unfold serve_app. rewrite fold_left_app. cbn [fold_left].
+  assert (Hq0 : quiet_state rs_init) by (repeat split; reflexivity).
+  destruct (idle_fold_quiet evs rs_init H Hq0) as [Hh [He [Hb Hs]]].
+  set (s := fold_left serve_ev evs rs_init) in *.
+  unfold serve_ev. rewrite He, Hb, Hh. cbn [orb].
+  unfold do_write. cbn [rs_started negb rs_len rs_sent rs_status rs_headed rs_ended rs_broken].
+  rewrite Nat2Z.id. cbn [length]. rewrite Nat.sub_0_r, firstn_all. cbn [app].
+  unfold serve_stop, set_ended. cbn [rs_ended orb].
+  unfold client_view, resp_complete. cbn [rs_status rs_len rs_sent rs_headed rs_ended andb].
+  rewrite Z.eqb_refl. reflexivity.
+Qed.
+
+Lemma raise_after_head_ignored : forall s est eb, rs_headed s = true -> serve_ev s (EvRaise est eb) = s.
+Proof.
+  intros s est eb H. unfold serve_ev. destruct (rs_ended s || rs_broken s); [reflexivity|].
+  rewrite H. reflexivity.
+Qed.
+
+Definition live_state (st : Z) (s : rstate) : Prop :=
+  rs_started s = true /\ rs_broken s = false /\ rs_status s = st /\ (rs_ended s = true -> rs_headed s = true).
+
+Lemma yield_keeps_live : forall st b s, live_state st s ->
+  live_state st (serve_ev s (EvYield b)) /\
+  (rs_headed s = true -> rs_headed (serve_ev s (EvYield b)) = true) /\
+  (b <> [] -> rs_headed (serve_ev s (EvYield b)) = true).
+Proof.
+  intros st b s [Hs [Hb [Hst He]]]. unfold serve_ev. rewrite Hb, orb_false_r.
+  destruct (rs_ended s) eqn:Ee.
+  - split; [repeat split; auto|]. split; [auto|]. intros _. apply He. reflexivity.
+  - destruct b as [|c b].
+    + split; [|split; [auto|intro H; contradiction]].
+      split; [exact Hs|]. split; [exact Hb|]. split; [exact Hst|]. intro H. rewrite Ee in H. discriminate.
+    + unfold do_write. rewrite Hs. cbn [negb]. unfold set_ended. cbn.
+      split; [repeat split; try assumption; reflexivity|]. split; reflexivity.
+Qed.
+
+Lemma yields_headed : forall st ys s, live_state st s ->
+  (rs_headed s = true \/ exists y, In y ys /\ y <> []) ->
+  live_state st (fold_left serve_ev (map EvYield ys) s) /\
+  rs_headed (fold_left serve_ev (map EvYield ys) s) = true.
+Proof.
+  induction ys as [|y ys IH]; intros s Hl H.
+  - cbn. destruct H as [H|[y [[] _]]]. split; assumption.
+  - cbn [map fold_left]. destruct (yield_keeps_live st y s Hl) as [Hl' [Hmono Hne]].
+    apply IH; [exact Hl'|].
+    destruct H as [H|[z [[Hz|Hz] Hnz]]].
+    + left. apply Hmono. exact H.
+    + subst z. left. apply Hne. exact Hnz.
+    + right. exists z. split; assumption.
+Qed.
+
+Lemma error_after_bytes_lemma : forall st cl ys est eb,
+  (exists y, In y ys /\ y <> []) ->
+  serve_app (EvStart st cl :: map EvYield ys ++ [EvRaise est eb]) = serve_app (EvStart st cl :: map EvYield ys) /\
+  rs_status (serve_app (EvStart st cl :: map EvYield ys ++ [EvRaise est eb])) = st /\
+  rs_headed (serve_app (EvStart st cl :: map EvYield ys ++ [EvRaise est eb])) = true.
+Proof.
+  intros st cl ys est eb Hex. unfold serve_app. cbn [fold_left].
+  set (s1 := serve_ev rs_init (EvStart st cl)).
+  assert (Hl1 : live_state st s1) by (repeat split; try reflexivity; cbn; discriminate).
+  destruct (yields_headed st ys s1 Hl1 (or_intror Hex)) as [[Hs [Hb [Hst He]]] Hh].
+  rewrite fold_left_app. cbn [fold_left]. rewrite raise_after_head_ignored by exact Hh.
+  split; [reflexivity|].
+  set (s2 := fold_left serve_ev (map EvYield ys) s1) in *.
+  unfold serve_stop. destruct (rs_ended s2 || rs_broken s2); [split; assumption|].
+  unfold do_write. rewrite Hs. cbn. split; [exact Hst|reflexivity].
+Qed.
+
+Lemma error_response_lemma :
+  (forall evs est eb, forallb idle_ev evs = true ->
+     client_view (serve_app (evs ++ [EvRaise est eb])) = (est, Some (Z.of_nat (length eb)), eb, true)) /\
+  (forall st cl ys est eb, (exists y, In y ys /\ y <> []) ->
+     serve_app (EvStart st cl :: map EvYield ys ++ [EvRaise est eb]) = serve_app (EvStart st cl :: map EvYield ys) /\
+     rs_status (serve_app (EvStart st cl :: map EvYield ys ++ [EvRaise est eb])) = st /\
+     rs_headed (serve_app (EvStart st cl :: map EvYield ys ++ [EvRaise est eb])) = true).
+Proof. split; [exact error_before_head_lemma|exact error_after_bytes_lemma]. Qed.
